@@ -139,7 +139,7 @@ PAUSE_RESUME = {"hb_promotion", "hb_pasha", "hb_cost_promotion", "synchb", "dehb
 
 
 def run(kind: str, seed: int, n_workers: int, started_budget: int, p_fail=0.0, p_ext=0.0, delete_checkpoints=False,
-        checkpointing=True, maxfail=3, async_sched=True, wait=False, remove_ckpt_callback=False):
+        checkpointing=True, maxfail=3, async_sched=True, wait=False, remove_ckpt_callback=False, sjwd=True):
     """One real Tuner.run with a real scheduler; returns the TunerLoop trace."""
     import numpy as np
     from syne_tune import StoppingCriterion
@@ -150,7 +150,7 @@ def run(kind: str, seed: int, n_workers: int, started_budget: int, p_fail=0.0, p
                                  delete_checkpoints=delete_checkpoints, max_fail=6, max_res_attr=MAXRES)
     sched = make_scheduler(kind, seed)
     conf = {"nw": n_workers, "kind": "pause", "maxfail": maxfail, "async": async_sched, "wait": wait,
-            "del": delete_checkpoints, "ckind": "started", "k": started_budget}
+            "del": delete_checkpoints, "ckind": "started", "k": started_budget, "sjwd": sjwd}
     # the scheduler may declare trials as never-resumable (synchronous Hyperband): logged as Removable events
     if hasattr(sched, "trials_checkpoints_can_be_removed"):
         orig = sched.trials_checkpoints_can_be_removed
